@@ -25,7 +25,7 @@ SHAPES = [(), (0,), (1,), (5,), (0, 0), (0, 3), (4, 0), (4, 1), (4, 2), (4, 3), 
           (4, 2, 2), (4, 2, 3), (4, 2, 4), (4, 2, 5), (4, 3, 4), (0, 3, 4), (0, 0, 4), (0, 3, 2), (4, 2, 2, 3), (4, 2, 4, 3),
           (4, 2, 2, 0), (4, 3, 4, 1), (0, 3, 2, 0), (0, 4, 4, 0)]
 DTYPES = ["bool", "int8", "int32", "int64", "uint64", "float16", "float32", "float64", "longdouble", "complex64", "complex128",
-          "clongdouble", "object"]
+          "clongdouble", "object", ">f4", ">f8", ">c8", ">c16", ">i4", ">i2"]
 T_OK = Time("2021-03-04T05:06:07.123456789", format="isot", scale="utc", precision=9)
 
 
@@ -131,8 +131,10 @@ def ctor_case(case, res):
                 if br:
                     res.violation(f"construct|contract|{br[0][0]}", f"{cls}{shape} {dt}: {br}", case, sub)
                     continue
-                if s.dtype != want_dt:
-                    res.violation("construct|dtype after cast", f"{cls} from {dt}: dtype {s.dtype}, expected {want_dt}", case, sub)
+                if s.dtype != want_dt or (cls in invariants.DTYPES and not s.dtype.isnative):
+                    res.violation("construct|dtype after cast", f"{cls} from {dt}: dtype {s.dtype!r}, expected native {want_dt}", case, sub)
+                if str(dt).startswith(">"):
+                    res.hits["byte-swapped input"] += 1
                 v = np.asarray(s.data.compute() if be == "dask" else s.data)
                 ref = np.asarray(x.compute() if be == "dask" else x)
                 if v.shape != ref.shape or not np.array_equal(v, ref.astype(want_dt)):
@@ -461,7 +463,7 @@ def check_case(case):
 def main(argv=None):
     return report.run_check(
         PID, gen_cases=gen_cases, check_case=check_case, describe=describe,
-        required_hits=["safe cast applied", "zero-length but valid", "invalid rejected with ValueError",
+        required_hits=["safe cast applied", "byte-swapped input", "zero-length but valid", "invalid rejected with ValueError",
                        "zero-length AND empty sample shape rejected", "odd nchan with explicit alignment",
                        "invalid metadata rejected", "invalid assignment rejected", "operation outputs monitored",
                        "baseband stepped slice chain", "copies", "assignment then copy", "like with overrides", "like missing required -> ValueError"],
